@@ -204,6 +204,12 @@ def _iter_child_nodes_in_order_internal_1(node):
             assert node._fields == ('name', 'bases', 'keywords', 'body', 'decorator_list'), node._fields
             yield node.decorator_list, node.bases, node.body
         # node.name is a string, not an AST node
+    elif isinstance(node, ast.JoinedStr):
+        # For a self-documenting expression (f"{x=}") the synthesized constant
+        # "x=" is positioned after the expression it documents; yield the
+        # parts in source order.
+        assert node._fields == ('values',), node._fields
+        yield sorted(node.values, key=lambda v: (v.lineno, v.col_offset))
     elif isinstance(node, ast.FormattedValue):
         assert node._fields == ('value', 'conversion', 'format_spec')
         yield node.value,
